@@ -64,9 +64,14 @@ def build_source(src, holder):
         holder["lines"] = lines
         return cb.Environments.from_supervised(cb.LibSvmSource(cb.ListSource(lines)), label_type="c")
     if kind == "result":
-        quiet_context()
-        envs = cb.Environments.from_linear_synthetic(kw["n"], n_actions=2, n_context_features=2, n_action_features=0, seed=kw["seed"])
-        res = cb.Experiment(envs, cb.RandomLearner(), cb.SequentialCB(record=["context", "actions", "action", "probability", "reward"])).run(quiet=True)
+        from coba.context import CobaContext, NullLogger
+        old_logger = CobaContext.logger          # (the caller's logger/sink must survive this nested experiment)
+        CobaContext.logger = NullLogger()
+        try:
+            envs = cb.Environments.from_linear_synthetic(kw["n"], n_actions=2, n_context_features=2, n_action_features=0, seed=kw["seed"])
+            res = cb.Experiment(envs, cb.RandomLearner(), cb.SequentialCB(record=["context", "actions", "action", "probability", "reward"])).run(quiet=True)
+        finally:
+            CobaContext.logger = old_logger
         holder["result"] = res
         return cb.Environments.from_result(res)
     raise ValueError(kind)
